@@ -415,7 +415,13 @@ def _min_max(it, name, args, kwargs):
                 acc = x
         else:
             a, b = sym.to_sym(x), sym.to_sym(acc)
-            acc = a if a == b else sp.Piecewise((a, c), (b, True))
+            if a == b:
+                acc = a
+            elif it.cfg.get("minmax_piecewise", False):
+                acc = sp.Piecewise((a, c), (b, True))
+            else:
+                # kept as one Min/Max node (same value as python's min/max on reals): the solver case-splits on whole arguments
+                acc = (sp.Min if name == "min" else sp.Max)(b, a, evaluate=False)
     return acc
 
 
